@@ -73,6 +73,15 @@ theorem storeOrder_inv {s s' : State} {o : Order} {fee : Option Coin} {id : Nat}
           rcases mem_setOrder hx with rfl | hx'
           · simp
           · have := hi.wf.ids x hx'; simp; omega
+        · show ((setOrder s.orders _).map (·.id)).Nodup
+          rw [ids_setOrder_none (by simpa using hnone)]
+          have hnot := getOrder_none_not_mem hnone
+          rw [List.nodup_append]
+          refine ⟨hi.wf.idsNodup, by simp, ?_⟩
+          intro a ha b hb
+          simp at hb; subst hb
+          intro heq; subst heq
+          exact hnot ha
         · exact hi.wf.commits
         · exact hi.wf.pays
         · exact hi.wf.keys
@@ -123,7 +132,7 @@ theorem cancelOrder_inv {s s' : State} {id : Nat} {signer : Addr} (hi : Inv s)
           have := amountOf_nonneg hnn e
           simp only [contrib]; split <;> omega
         · rw [← h, e1]
-          exact hi.wf.of_subset (fun o h => mem_deleteOrder h) (Nat.le_refl _) (fun c h => h) (List.Sublist.refl _)
+          exact hi.wf.of_subset (deleteOrder_sublist _ _) (Nat.le_refl _) (fun c h => h) (List.Sublist.refl _)
 
 /-- under the invariant the owner's cancellation can not fail: the hold is never short -/
 theorem cancelOrder_by_owner_succeeds {s : State} {id : Nat} {o : Order} (hi : Inv s)
@@ -179,6 +188,7 @@ theorem addCommitmentCore_inv {s s' : State} {m : Nat} {a : Addr} {amount : Coin
           constructor
           · exact hi.wf.orders
           · exact hi.wf.ids
+          · exact hi.wf.idsNodup
           · intro c hc
             dsimp only at hc
             rcases mem_setCommitment hc with rfl | hc'
@@ -208,7 +218,7 @@ theorem commitFunds_inv {s s' : State} {m : Nat} {a : Addr} {amount : Coins} {fe
             have hi1 : Inv s1 := by
               rw [e1]
               exact ⟨hi.holdsMatch, by rw [← e1]; exact hcov hi.covered,
-                ⟨hi.wf.orders, hi.wf.ids, hi.wf.commits, hi.wf.pays, hi.wf.keys⟩⟩
+                ⟨hi.wf.orders, hi.wf.ids, hi.wf.idsNodup, hi.wf.commits, hi.wf.pays, hi.wf.keys⟩⟩
             have hnd : nodupDenoms amount = true := by
               simp only [not_or, Bool.not_eq_true', Bool.not_eq_false'] at hv
               exact isValidCoins_nodup (by simpa using hv.2.2)
@@ -262,6 +272,7 @@ theorem releaseCommitment_inv {s s' : State} {m : Nat} {a : Addr} {amount : Coin
               constructor
               · exact hi.wf.orders
               · exact hi.wf.ids
+              · exact hi.wf.idsNodup
               · intro c hc
                 dsimp only at hc
                 rcases mem_setCommitment hc with rfl | hc'
@@ -299,6 +310,7 @@ theorem releaseCommitment_inv {s s' : State} {m : Nat} {a : Addr} {amount : Coin
             constructor
             · exact hi.wf.orders
             · exact hi.wf.ids
+            · exact hi.wf.idsNodup
             · intro c hc
               dsimp only at hc
               rcases mem_setCommitment hc with rfl | hc'
@@ -369,6 +381,7 @@ theorem createPayment_inv {s s' : State} {p : Payment} (hi : Inv s) (h : createP
           constructor
           · exact hi.wf.orders
           · exact hi.wf.ids
+          · exact hi.wf.idsNodup
           · exact hi.wf.commits
           · intro x hx
             rcases mem_setPayment hx with rfl | hx'
@@ -398,14 +411,14 @@ theorem deletePaymentAndReleaseHold_inv {s s' : State} {p : Payment} (hi : Inv s
     have := amountOf_nonneg hnn e
     simp only [pcontrib]; split <;> omega
   · rw [e1]
-    exact hi.wf.of_subset (fun o h => h) (Nat.le_refl _) (fun c h => h) (deletePayment_sublist _ _ _)
+    exact hi.wf.of_subset (List.Sublist.refl _) (Nat.le_refl _) (fun c h => h) (deletePayment_sublist _ _ _)
 
 theorem sendCoins_inv {s s' : State} {f t : Addr} {coins : Coins} (hi : Inv s) (hn : nodupDenoms coins = true)
     (h : sendCoins s f t coins = some s') : Inv s' ∧ ∀ b e, hold s' b e = hold s b e := by
   have hcov := sendCoins_covered h hi.covered hn
   obtain ⟨k', e1, _⟩ := sendCoins_eq h
   subst e1
-  exact ⟨⟨hi.holdsMatch, hcov, ⟨hi.wf.orders, hi.wf.ids, hi.wf.commits, hi.wf.pays, hi.wf.keys⟩⟩, fun _ _ => rfl⟩
+  exact ⟨⟨hi.holdsMatch, hcov, ⟨hi.wf.orders, hi.wf.ids, hi.wf.idsNodup, hi.wf.commits, hi.wf.pays, hi.wf.keys⟩⟩, fun _ _ => rfl⟩
 
 theorem acceptPayment_inv {s s' : State} {p : Payment} (hi : Inv s) (h : acceptPayment s p = .ok s') :
     ∃ ex, getPayment s.payments p.source p.extId = some ex ∧ Inv s' ∧
@@ -584,6 +597,7 @@ theorem updatePaymentTarget_inv {s s' : State} {src : Addr} {ext : String} {nt :
       · constructor
         · exact hi.wf.orders
         · exact hi.wf.ids
+        · exact hi.wf.idsNodup
         · exact hi.wf.commits
         · intro x hx
           rcases mem_setPayment hx with rfl | hx'
